@@ -357,8 +357,14 @@ func c16DispatchPart(t *testing.T, rep *vfReport) {
 							}
 							ops = append(ops, fmt.Sprintf("request %s %d %s", c16Level(lvl), nrw, o.args()))
 						}
-						impl = append(impl, out)
 						after := c16Observe(n, role, fx.f, fx.strict)
+						if after.leader != o.leader || after.rt != o.rt || after.voter != o.voter {
+							// the node's role changed while the call was in flight: nothing can be said about this one
+							ops = ops[:len(ops)-1]
+							rep.Count("dispatch-call-skipped:role-changed-in-flight")
+							continue
+						}
+						impl = append(impl, out)
 						key := fmt.Sprintf("%s|%s|%s|%s", api, role, fx.name, c16Level(lvl))
 						table[key] = class(out)
 						rep.Case(key+"|"+out, true)
